@@ -138,23 +138,18 @@ Qed.
 Definition burst_bytes (p s : N) : list N :=
   let v := N.shiftl p s in [v mod 256; (v / 256) mod 256; (v / 65536) mod 256].
 
-Definition burst_ok (p : N) : bool :=
-  (p =? 0) || forallb (fun s => negb (crc_fold 0 (burst_bytes p s) =? 0)) [0; 1; 2; 3; 4; 5; 6; 7].
+Definition burst_check (p s : N) : bool := (p =? 0) || negb (crc_fold 0 (burst_bytes p s) =? 0).
 
-Lemma burst_sweep : forall p, p < 65536 -> burst_ok p = true.
-Proof. exact (sweep burst_ok 65536 ltac:(vm_compute; reflexivity)). Qed.
+Lemma burst_sweep : forall p s, p < 65536 -> s < 8 -> burst_check p s = true.
+Proof. exact (sweep2 burst_check 65536 8 ltac:(vm_compute; reflexivity)). Qed.
 
 Lemma bytes_ok_burst p s : bytes_ok (burst_bytes p s) = true.
 Proof. unfold burst_bytes, bytes_ok. cbn [forallb]. unfold byte_ok. lia. Qed.
 
 Lemma burst_nonzero p s : 1 <= p -> p < 65536 -> s < 8 -> crc_fold 0 (burst_bytes p s) <> 0.
 Proof.
-  intros Hp1 Hp Hs. pose proof (burst_sweep p Hp) as H. unfold burst_ok in H.
-  destruct (N.eqb_spec p 0); [lia|]. cbn [orb] in H. rewrite forallb_forall in H.
-  assert (Hin : In s [0; 1; 2; 3; 4; 5; 6; 7]).
-  { assert (Hc : s = 0 \/ s = 1 \/ s = 2 \/ s = 3 \/ s = 4 \/ s = 5 \/ s = 6 \/ s = 7) by lia.
-    cbn. intuition. }
-  specialize (H s Hin). cbv beta in H. lia.
+  intros Hp1 Hp Hs. pose proof (burst_sweep p s Hp Hs) as H. unfold burst_check in H.
+  generalize dependent (crc_fold 0 (burst_bytes p s)). intros c H. lia.
 Qed.
 
 (* every error pattern whose set bits lie within 16 consecutive transmitted bits -- anywhere in a frame
@@ -171,15 +166,6 @@ Proof.
   - apply crc_fold_closed; [lia|apply bytes_ok_burst].
   - apply burst_nonzero; assumption.
 Qed.
-
-(* bursts that reach the last one or two bytes of the frame (pattern truncated to the frame) *)
-Definition burst_tail_ok (p : N) : bool :=
-  forallb (fun s => let b := burst_bytes p s in
-                    ((hd 0 b =? 0) || negb (crc_fold 0 [hd 0 b] =? 0))
-                    && (((hd 0 b =? 0) && (hd 0 (tl b) =? 0)) || negb (crc_fold 0 [hd 0 b; hd 0 (tl b)] =? 0)))
-          [0; 1; 2; 3; 4; 5; 6; 7].
-Lemma burst_tail_sweep : forall p, p < 65536 -> burst_tail_ok p = true.
-Proof. exact (sweep burst_tail_ok 65536 ltac:(vm_compute; reflexivity)). Qed.
 
 (* single-bit errors are bursts of length one *)
 Corollary single_bit_detected F k b m :
